@@ -49,6 +49,7 @@ type Config struct {
 	AllocFactor int // C07: allocation bound factor (0 = off)
 	AllocBase   int
 	InputLen    int
+	LockGuard   *LockGuard
 	LossyFmt    bool // decimal/hex rendering of symbolic integers yields a placeholder (totality harnesses only)
 }
 
@@ -97,11 +98,22 @@ type Exec struct {
 	lastNow    Value
 	decOrigin  map[**sym.Term]decInfo
 	b64Origin  map[string][]*sym.Term
+	guardDepth int
 }
 
 type qres struct {
 	r sym.Result
 	m *sym.Model
+}
+
+// LockGuard configures the lock-discipline monitor: inside methods whose receiver is ScopeRecv, every access to
+// the listed fields of the receiver, to values of MapType and to cells of RecordType requires the lock
+// (a read lock or the write lock for loads, the write lock for stores).
+type LockGuard struct {
+	ScopeRecv  string   `json:"scope_recv"`
+	Fields     []string `json:"fields"`
+	RecordType string   `json:"record_type"`
+	MapType    string   `json:"map_type"`
 }
 
 // InputRec describes one nondet input (for replay files).
